@@ -530,11 +530,45 @@ func (t *Topic) handleTopicTermination(sd *shutDown) {
 		s.detachSession(t.name)
 	}
 
+	// Refuse whatever is still queued: nobody is going to read these queues again.
+	t.rejectPending()
+
 	usersRegisterTopic(t, false)
 
 	// Report completion back to sender, if 'done' is not nil.
 	if sd.done != nil {
 		sd.done <- true
+	}
+}
+
+// rejectPending answers and releases the requests still queued at a topic which is going away.
+func (t *Topic) rejectPending() {
+	now := types.TimeNow()
+	for {
+		select {
+		case msg := <-t.reg:
+			msg.sess.queueOut(ErrLockedReply(msg, now))
+			if msg.sess.inflightReqs != nil {
+				msg.sess.inflightReqs.Done()
+			}
+		case msg := <-t.unreg:
+			if msg.init {
+				msg.sess.queueOut(ErrLockedReply(msg, now))
+				if msg.sess.inflightReqs != nil {
+					msg.sess.inflightReqs.Done()
+				}
+			}
+		case msg := <-t.meta:
+			if msg.init {
+				msg.sess.queueOut(ErrLockedReply(msg, now))
+			}
+		case msg := <-t.clientMsg:
+			if msg.init && msg.Pub != nil {
+				msg.sess.queueOut(ErrLockedReply(msg, now))
+			}
+		default:
+			return
+		}
 	}
 }
 
